@@ -312,7 +312,7 @@ Proof.
       assert (HL : LInv (a_ranges s1) l) by (destruct I1 as [_ Il _ _ _ _]; rewrite Forall_forall in Il; apply Il; assumption).
       destruct (take_slots_linv _ _ _ _ _ HL T) as (HL' & En & _).
       eapply with_list_inv; [assumption| |exact HL'|exact En]. rewrite Lns. exact F1.
-    + destruct try_; [|discriminate]. injection H as <-. assumption.
+    + destruct (try_ && _) in H; [|discriminate]. injection H as <-. assumption.
     + destruct try_; [discriminate|]. injection H as <-. assumption.
   - destruct evs; [|destruct r; discriminate].
     destruct r; try discriminate.
@@ -459,7 +459,7 @@ Proof.
   destruct (_ || _) in H; [discriminate|].
   destruct (acc_evs s evs) as [s1|] eqn:E; [|discriminate].
   pose proof (acc_evs_allocs _ _ _ key E) as H1.
-  destruct Hr as [-> | ->]; (destruct try_; try discriminate; injection H as <-);
+  destruct Hr as [-> | ->]; (first [destruct (try_ && _) in H | destruct try_]; try discriminate; injection H as <-);
     destruct (find_list key (a_lists s)), (find_list key (a_lists s1)); tauto.
 Qed.
 
@@ -613,7 +613,7 @@ Proof.
       assert (HL : LInv (a_ranges s1) l) by (destruct I1 as [_ Il _ _ _ _]; rewrite Forall_forall in Il; apply Il; assumption).
       destruct (take_slots_linv _ _ _ _ _ HL T) as (_ & En & Ek & _).
       eapply grows_trans; [exact G1|]. apply (with_list_grows s1 l l'); [rewrite Lns; assumption|assumption|assumption].
-    + destruct try_; [|discriminate]. injection H as <-. assumption.
+    + destruct (try_ && _) in H; [|discriminate]. injection H as <-. assumption.
     + destruct try_; [discriminate|]. injection H as <-. assumption.
   - destruct evs; [|destruct r; discriminate].
     destruct r; try discriminate.
@@ -645,4 +645,14 @@ Proof.
   destruct (capacity_is_exact s l I Lin) as (C1 & _ & _). destruct (capacity_is_exact s' l' I' Lin') as (_ & _ & C3).
   rewrite (C3 E), C1.
   destruct I as [_ Il _ _ _ _]. rewrite Forall_forall in Il. pose proof (k_sum_nonneg _ (li_kpos _ _ (Il l Lin))). lia.
+Qed.
+
+(* a composable single-node request is refused only when its list holds no node: what capacity_left promises can be had *)
+Theorem single_node_refusal_means_empty s ns bytes evs s' :
+  acc_op s (OAlloc true false ns bytes) evs ObsNull = Some s' ->
+  exists l0, find_list ns (a_lists s) = Some l0 /\ l_nfree l0 <= 0.
+Proof.
+  unfold acc_op. destruct (find_list ns (a_lists s)) as [l0|]; [|discriminate]. intros H. exists l0. split; [reflexivity|].
+  destruct (_ || _) in H; [discriminate|]. destruct (acc_evs s evs); [|discriminate].
+  cbn [negb andb] in H. destruct (Z.ltb_spec 0 (l_nfree l0)); [discriminate|lia].
 Qed.
